@@ -1,4 +1,6 @@
 import ScrapliModel.Lemmas.Failed
+import ScrapliModel.Lemmas.FailedText
+import ScrapliModel.Lemmas.FailedFault
 import ScrapliModel.Lemmas.GoSem
 import ScrapliModel.Generated.BodiesFailed
 /-!
@@ -236,6 +238,59 @@ theorem multi_lists_exactly_failed_members (rs : List Resp) (hrec : ∀ r ∈ rs
   · cases hf
   · exact ⟨opErrs rs, by simpa using hf.symm, opErrs_map rs hrec⟩
 
+/-! ## what the errors say (`response/errors.go`) -/
+
+/-- Obligations on the regenerated formats (`Generated/C13ErrorText.lean`): the operation error has
+one `%s` for each of input, matched string and output; the multi error uses the single-error text
+exactly for one listed operation and otherwise has one `%d` for the number of listed operations. -/
+theorem op_error_format_verbs (a b c : Bytes) :
+    verbsMatch (parseFmt Gen.C13ErrorText.opErrorFormat) [.s a, .s b, .s c] = true := by rfl
+theorem multi_error_format_verbs (a b c : Bytes) (k : Nat) :
+    Gen.C13ErrorText.multiOneWhenLen = some 1 ∧
+    verbsMatch (parseFmt Gen.C13ErrorText.multiOneFormat) [.s a, .s b, .s c] = true ∧
+    verbsMatch (parseFmt Gen.C13ErrorText.multiManyFormat) [.n k] = true := ⟨rfl, rfl, rfl⟩
+
+/-- The text of an operation error names the input, the matched failure string and the output. -/
+theorem op_error_text_names (e : OpErr) :
+    e.input <:+: e.text ∧ e.errStr <:+: e.text ∧ e.output <:+: e.text := by
+  have h := (render_contains _ _ (op_error_format_verbs e.input e.errStr e.output)).1
+  unfold OpErr.text
+  rw [opErrArgs_eq]
+  exact ⟨h _ (by simp), h _ (by simp), h _ (by simp)⟩
+
+/-- The text of a multi error: with exactly one listed operation it is that operation's own text;
+otherwise it states the number of listed operations (in decimal) — which, by
+`multi_lists_exactly_failed_members`, is the number of failed members. -/
+theorem multi_error_text (es : List OpErr) :
+    (∀ e, es = [e] → multiText es = e.text) ∧
+    (es.length ≠ 1 → decDigits es.length <:+: multiText es) := by
+  constructor
+  · intro e he
+    subst he
+    unfold multiText OpErr.text
+    rw [(multi_error_format_verbs [] [] [] 0).1, multiOneArgs_eq, opErrArgs_eq]
+    rfl
+  · intro hne
+    unfold multiText
+    rw [(multi_error_format_verbs [] [] [] 0).1]
+    have : (some 1 == some es.length) = false := by
+      simp only [beq_eq_false_iff_ne, ne_eq, Option.some.injEq]
+      omega
+    rw [this, multiManyArgs_eq]
+    exact (render_contains _ _ (multi_error_format_verbs [] [] [] es.length).2.2).2 _ (by simp)
+
+example : (OpErr.mk (ofStr "sh x") (ofStr "% Invalid input") (ofStr "% Invalid")).text =
+    ofStr "operation error from input 'sh x'. matched error sub-string '% Invalid'. full output: '% Invalid input'" := by
+  decide +kernel
+example : multiText [⟨ofStr "a", ofStr "E1", ofStr "E"⟩, ⟨ofStr "b", ofStr "E2", ofStr "E"⟩] =
+    ofStr "operation error from multiple inputs. 2 indicated errors" := by decide +kernel
+
+/-- `JoinedResult` of a multi-response is the members' results joined by line feeds; the collapsed
+`SendConfig` response carries exactly that. -/
+theorem joined_result_is_collapse_result (config : Bytes) (m : Multi) :
+    (collapse config m).result = m.joinedResult ∧
+    m.joinedResult = joinLF (m.responses.map (·.result)) := ⟨rfl, rfl⟩
+
 /-! ## stop-on-failed -/
 
 /-- `SendCommands` over any device, from any device state, for any non-empty command list:
@@ -383,6 +438,97 @@ theorem default_sends_all {σ : Type} (dev : Dev σ) (drv : List Bytes) (opFwc :
     | cons c cs =>
       rw [sendCommands_char _ _ _ _ _ (by simp)]
       simp [h1, sentCount, answers_length]
+
+/-! ## when the channel returns an error in the middle of a list -/
+
+/-- `SendCommands` over a device that may leave a command unanswered (`DevE`; an unanswered command
+= `Channel.SendInput` returned an error). With `k` the first command that would go unanswered and
+`n` the number of commands the stop-on-failed rule would send:
+* if the unanswered command lies within those `n` (`k < n`), the call returns the error and no
+  response object, the unanswered command was the last one transmitted (`k + 1` in all) — nothing
+  after it is sent;
+* otherwise the error is never met and the call behaves as over an answering device: the first `n`
+  commands are transmitted and answered, and exactly their responses are returned. -/
+theorem channel_error_aborts {σ : Type} (dev : DevE σ) (drv opStrs : List Bytes) (stop : Bool)
+    (d0 : σ) (log0 : List Bytes) (cmds : List Bytes) (hne : cmds ≠ []) :
+    (firstNone (answersE dev d0 cmds) <
+        sentCount stop ((answersE dev d0 cmds).map (flagE (effective opStrs drv))) →
+      ∃ s', sendCommandsE dev drv ⟨opStrs, stop⟩ ⟨d0, log0⟩ cmds = (.chanErr, s') ∧
+        s'.log = log0 ++ cmds.take (firstNone (answersE dev d0 cmds) + 1)) ∧
+    (sentCount stop ((answersE dev d0 cmds).map (flagE (effective opStrs drv))) ≤
+        firstNone (answersE dev d0 cmds) →
+      ∃ m s', sendCommandsE dev drv ⟨opStrs, stop⟩ ⟨d0, log0⟩ cmds = (.ok m, s') ∧
+        s'.log = log0 ++ cmds.take (sentCount stop ((answersE dev d0 cmds).map (flagE (effective opStrs drv)))) ∧
+        m.responses.map (·.input) =
+          cmds.take (sentCount stop ((answersE dev d0 cmds).map (flagE (effective opStrs drv)))) ∧
+        m.responses.map (fun r => some r.result) =
+          (answersE dev d0 cmds).take (sentCount stop ((answersE dev d0 cmds).map (flagE (effective opStrs drv))))) := by
+  have hchar := sendCommandsE_char dev drv ⟨opStrs, stop⟩ ⟨d0, log0⟩ cmds hne
+  rw [sendUniformE_spec] at hchar
+  have hlen := answersE_length dev d0 cmds
+  constructor
+  · intro hk
+    simp only [hk, if_true] at hchar
+    exact ⟨_, hchar, rfl⟩
+  · intro hk
+    have hnk : ¬ firstNone (answersE dev d0 cmds) <
+        sentCount stop ((answersE dev d0 cmds).map (flagE (effective opStrs drv))) := by omega
+    simp only [hnk, if_false] at hchar
+    have hfold := foldl_append_empty (respsE (effective opStrs drv)
+        (cmds.take (sentCount stop ((answersE dev d0 cmds).map (flagE (effective opStrs drv)))))
+        ((answersE dev d0 cmds).take (sentCount stop ((answersE dev d0 cmds).map (flagE (effective opStrs drv))))))
+    rw [hfold] at hchar
+    have hl : (cmds.take (sentCount stop ((answersE dev d0 cmds).map (flagE (effective opStrs drv))))).length =
+        ((answersE dev d0 cmds).take (sentCount stop ((answersE dev d0 cmds).map (flagE (effective opStrs drv))))).length := by
+      simp [hlen]
+    refine ⟨_, _, hchar, rfl, respsE_input _ _ _ hl, ?_⟩
+    show (respsE _ _ _).map (fun r => some r.result) = _
+    have hres := respsE_result (effective opStrs drv) _ _ hl
+    have hmap : (respsE (effective opStrs drv)
+        (cmds.take (sentCount stop ((answersE dev d0 cmds).map (flagE (effective opStrs drv)))))
+        ((answersE dev d0 cmds).take (sentCount stop ((answersE dev d0 cmds).map (flagE (effective opStrs drv)))))).map
+          (fun r => some r.result) =
+        ((answersE dev d0 cmds).take (sentCount stop ((answersE dev d0 cmds).map (flagE (effective opStrs drv))))).map
+          (fun o => some (o.getD [])) := by
+      have := congrArg (List.map some) hres
+      simpa [List.map_map, Function.comp_def] using this
+    rw [hmap]
+    apply List.ext_getElem?
+    intro i
+    simp only [List.getElem?_map, List.getElem?_take]
+    split
+    · rename_i hi
+      obtain ⟨b, hb⟩ := (firstNone_spec (answersE dev d0 cmds)).1 i (by omega)
+      simp [hb]
+    · simp
+
+/-- three commands, the second is never answered: it is the last one transmitted -/
+example : (fun x : SendRes × Sess Nat => (x.1, x.2.log))
+    (sendCommandsE (σ := Nat) (fun i _ => (i + 1, if i == 1 then none else some (ofStr "ok"))) []
+      ⟨[], false⟩ ⟨0, []⟩ [ofStr "a", ofStr "b", ofStr "c"]) = (.chanErr, [ofStr "a", ofStr "b"]) := by
+  decide +kernel
+
+/-- …unless stop-on-failed ends the list before it is reached -/
+example : (sendCommandsE (σ := Nat) (fun i _ => (i + 1, if i == 1 then none else some (ofStr "E"))) [ofStr "E"]
+    ⟨[], true⟩ ⟨0, []⟩ [ofStr "a", ofStr "b", ofStr "c"]).2.log = [ofStr "a"] := by decide +kernel
+
+/-- Over a device that answers everything the error-aware model is the plain one, so every theorem
+above applies to it. -/
+theorem answering_device_no_error {σ : Type} (dev : Dev σ) (drv : List Bytes) (op : Op) (s : Sess σ)
+    (cmds : List Bytes) :
+    sendCommandsE (liftDev dev) drv op s cmds =
+      (match sendCommands dev drv op s cmds with
+       | (some m, s') => (.ok m, s')
+       | (none, s') => (.noop, s')) := by
+  cases cmds with
+  | nil => rfl
+  | cons c cs =>
+    have hne : c :: cs ≠ [] := by simp
+    rw [sendCommandsE_char _ _ _ _ _ hne, sendUniformE_lift, sendCommands_eq]
+    have hl : (c :: cs).getLast? = some ((c :: cs).getLast hne) := List.getLast?_eq_some_getLast hne
+    have hd : (c :: cs).dropLast ++ [(c :: cs).getLast hne] = c :: cs := List.dropLast_concat_getLast hne
+    rw [hl]
+    simp only [sendLoop_then_last, hd, Multi.empty]
 
 /-! ## the collapsed config response -/
 
